@@ -330,7 +330,28 @@ def run(check, an: Analysis):
     check.instance('B', 'nowait-conditions', nowait == {'free', 'own'}, where_fn(fn_enter),
                    '__aenter__ proceeds without waiting exactly when free or already owned: '
                    '%s' % sorted(nowait))
+    check_forced_close_tolerated(check, an, 'R')
     check.stats.update(an.stats())
+
+
+def check_forced_close_tolerated(check, an: Analysis, rule: str):
+    """
+    a holder that is force-closed (GeneratorExit) has its block unwound by the *closing*
+    activity: on that way through ``Lock.__aexit__`` no assertion about who owns the lock
+    is evaluated (it would fail and replace the close), and the lock is still given up
+    """
+    aexit = an.callee(LOCK, '__aexit__')
+    verdict, n, bad = True, 0, None
+    for path in an.paths(aexit, 'genexit'):
+        n += 1
+        for index, event in enumerate(path.events):
+            if event.kind == 'assert' and event.get('key') is not None and \
+                    not event.get('known') and '_owner' in repr(event['key']):
+                verdict, bad = False, bad or (path, index)
+    check.instance(rule, '__aexit__{genexit}:no-ownership-assertion', verdict and n > 0,
+                   where_fn(aexit.fn), 'on a forced close the ownership assertion is not '
+                   'evaluated (%d paths)' % n,
+                   path=rules.path_lines(*bad) if bad else None, analysed=n)
 
 
 def _stored_source(path, index, value, depth=4):
